@@ -256,7 +256,8 @@ func isTestSignature(sign *types.Signature) bool {
 	if tname == nil {
 		return false // the only parameter isn't named, like "string"
 	}
-	return tname.Pkg().Path() == "testing" && tname.Name() == "T"
+	// Universe types such as error have no package.
+	return tname.Pkg() != nil && tname.Pkg().Path() == "testing" && tname.Name() == "T"
 }
 
 func splitFlagsFromArgs(all []string) (flags, args []string) {
